@@ -50,7 +50,7 @@ meta={"breaks_property":prop,"origin":"independent sub-agent given only the prop
  "confirmed":{"applies_and_builds":True,"repository_suite_with_change":suite,"demo_package_dir":d,"demo_tests":tests,
    "demo_on_clean_tree_exit":int(clean),"demo_with_change_exit":int(mut),"demo_flags":race},
  "checks_run":f"tools/mutant_run.sh patch.diff {tier} (scratch worktree of /repo HEAD via VERIF_REPO; property's own check first, all checks if it missed)",
- "caught_by":caught.split(),"tier":tier,"strengthened":os.environ.get("STRENGTHENED","") or prev.get("strengthened",""),"first_violation":open(f"/verif/seeded/{id}-{k}/first_violation.txt").read()}
+ "caught_by":caught.split(),"tier":tier,"strengthened":os.environ.get("STRENGTHENED","") or prev.get("strengthened",""),"first_violation":open(f"/verif/seeded/{id}-{k}/first_violation.txt",errors="replace").read()}
 json.dump(meta,open(f"/verif/seeded/{id}-{k}/meta.json","w"),indent=1)
 print("caught_by:",meta["caught_by"])
 PY
